@@ -7,6 +7,11 @@ use crate::framing::*;
 #[path = "c03_prod.rs"]
 pub mod prod;
 
+/// dimension audit (aC03): all entry points of server::Grpc / client::Grpc, request shapes, handler
+/// metadata, knobs, body hints, the real Server / Channel stacks: case kinds `wresp wreq wsrv wcli`
+#[path = "c03_wire.rs"]
+pub mod wire;
+
 pub fn generate(tier: &str, rng: &mut Rng) -> Vec<String> {
     let thorough = tier == "thorough";
     let mut out = Vec::new();
@@ -45,6 +50,7 @@ pub fn generate(tier: &str, rng: &mut Rng) -> Vec<String> {
     }
     out.extend(gen_whole(tier, rng));
     out.extend(prod::generate(tier, rng));
+    out.extend(wire::generate(tier, rng));
     if thorough {
         // small-scope exhaustive: every source schedule up to length 5 over
         // {small message, message over the limit, Pending, source error}, both roles,
@@ -88,6 +94,7 @@ pub fn execute(case: &str) -> String {
         "resp" => exec_resp(&t),
         "req" => exec_req(&t),
         "prod" => prod::execute(case),
+        "wresp" | "wreq" | "wsrv" | "wcli" => wire::execute(case),
         _ => crate::framing::execute(case),
     }
 }
